@@ -353,7 +353,13 @@ class Scheduler():
             from_time = _libsc3.main.elapsed_time()
         else:
             from_time = self.seconds
+        self._unexpire(item)
         self.queue.add(from_time + delta, item)
+
+    def _unexpire(self, item):
+        # An expired item not awaken yet is still pending: scheduling it
+        # again moves it, as the queue does for the items it holds.
+        self._expired[:] = [x for x in self._expired if x[1] is not item]
 
     def sched(self, delta, item):
         if not hasattr(item, '__awake__'):
@@ -371,6 +377,7 @@ class Scheduler():
         item._clock = self._clock
         if time == float('inf'):
             return
+        self._unexpire(item)
         self.queue.add(time, item)
 
     def clear(self):
